@@ -1,4 +1,106 @@
-(** Symbolic execution of PyLite programs inside Coq.
+(** MIGRATION (interpreter v2 -> v3: exceptions carry state).
+
+    What changed in py/PyLite.v: [res] has a fifth constructor
+    [ExcS cls st] next to [Exc cls].  A raise inside [eval]/[exec] is
+    [ExcS c <environment at the raise>] (primitives still return [Exc c]; the
+    interpreter wraps them in [attach <env>]); [STry] runs the handler in that
+    environment; [call_func] reports [ExcS c [("$self", v)]] where [v] is the
+    value of the callee's FIRST PARAMETER at the raise ([ExcS c []] for a
+    function without parameters; a failed argument binding stays [Exc c]); the
+    caller writes that receiver back, as it does after a normal return.  The
+    entry points [call_method], [construct], [call_function] are
+    [strip (...)]: at that level an exception is [Exc c], as before.
+
+    What a proof author has to change.  Proofs of the form
+    [pystart. (unfold <model>.) pyrun.] need NO edit; the executor knows the
+    new shapes ([head_of] looks through [attach]/[strip], [ExcS] is a result,
+    the loop lemmas carry the [attach]).  Statements and hand-written steps:
+
+    1. Theorems about [call_method] / [construct] / [call_function] /
+       [get_attr ..]: statement unchanged (exceptions are [Exc w]).  Nothing to do.
+
+    2. Lemmas about [call_func program (S^k n) C_m [self; args] kws] (the ones
+       registered in [pyspec]) whose right-hand side can be an exception: the
+       exception is now [ExcS w (self_st r)], i.e. [ExcS w [("$self", r)]],
+       with [r] the receiver AT THE RAISE (= [self] if the method does not
+       assign to [self.x] before raising).  Three ways to say it:
+         - the right-hand side is built by an embedding [emb (model ..)] that
+           is also used in the [*_spec] theorems: wrap it,
+           [attach (self_st self) (emb (model ..))] -- [attach] turns the
+           [Exc w] of [emb] into [ExcS w (self_st self)] and leaves the rest;
+         - the embedding is used at the [call_func] level only: change its
+           [Raise w => Exc w] case into [Raise w => ExcS w (self_st self)];
+         - a literal [Exc "AssertionError"] etc. becomes
+           [ExcS "AssertionError" (self_st self)].
+       If the receiver changes before the raise, say which it is (example:
+       [Demo.bump_func]; [emb_hdr_out]/[frame_raise_self] in
+       proofs/Src_reasm_proofs.v).  A lemma that can only return [Ok]: unchanged.
+
+    3. Intro patterns over [PyLite.res]: one more case,
+       [destruct r as [x| | |]] -> [destruct r as [x| | | |]] (order: [Ok],
+       [Exc], [ExcS], [Fuel], [Unsupported]); [2-4:] -> [2-5:].
+
+    4. Anything that relied on the SHAPE of [call_func_S]: the body is no
+       longer [do o <- exec_block ..; match o with ..] but
+       [match exec_block .. with Ok (ONorm e') => .. | ExcS c e' => ExcS c
+       (self_state f e') | ..] (no [bind]: a [bind] would let the state of the
+       raise through unchanged).  Goal patterns such as
+       [|- (do o <- while_loop ..; _) = _] become
+       [|- match while_loop .. with _ => _ end = _]; an "observation" function
+       written as [do o <- r; match o with ..] must be rewritten as a [match]
+       on [r] with the [ExcS] case (example: [obs] in
+       proofs/Src_reasm_proofs.v).  [call_method_value_obj] changed likewise.
+
+    5. Own loop lemmas / invariants.  [for_loop_cons], [for_loop_fold],
+       [for_loop_iter]: the assignment of the loop variable is
+       [attach e (assign P cf e t y)] (was [assign P cf e t y]); [eval_EComp]:
+       [attach e1 (comp_loop ..)].  Premises "one iteration", proved by
+       [pyrun], need no new proof.  A loop whose body MAY RAISE: the model step
+       function has to return [ExcS c <environment at the raise>]; give it the
+       embedding of the loop state into environments as a parameter (example:
+       [en_step]/[en_fold]/[py_range_bytes_loop] in
+       proofs/Src_parse_req_lemmas.v, Src_parse_req_proofs.v).  Iteration
+       lemmas "per outcome" say in which environment the iteration raises
+       ([iter_raise], [iter_main] in proofs/Src_stream_enc_proofs.v); for the
+       whole loop it is enough to say "in the environment of SOME loop state"
+       ([exists st, for_loop .. = match model with .. | Raise w => ExcS w
+       (env_of st) ..], [loop_spec] there): the caller only needs
+       [lookup "self"] of it.  Use such a lemma with [edestruct .. as [st H];
+       rewrite H] (arguments left to unification).
+
+    6. A [*_spec] proof whose callee lemma has the form
+       [.. = do r <- attach (self_st self) (emb x); ..] with [emb] FOLDED: the
+       executor then case-splits on the opaque [emb x : res _], and the case
+       [emb x = ExcS c st] cannot be closed ([strip (.. attach s (ExcS c st))]
+       is [Exc c], the right-hand side says [ExcS c st]).  Let the executor
+       open the embedding: add it to the unfold hook's database after the
+       callee lemma is proved (example: [emb_recv] in
+       proofs/Src_parserecv_proofs.v).  Embeddings that are already in the
+       database need nothing.  When the embedded term cannot be opened (a
+       fuelled model, say): prove that it raises without state,
+       [strip (model x) = model x], rewrite the RIGHT-hand side of the goal
+       with that equation from right to left, and run; the case split on the
+       folded term then closes in all five cases (example:
+       [decode_result_strip], [frame_stream_decode_exact] in
+       proofs/Src_stream_proofs.v; [while_model_strip] in py/PyLite_while.v).
+       Relational loop rules: a stateless [Exc w] of the model is related to
+       [ExcS w e] of the interpreter for an [e] satisfying a predicate of the
+       user's choosing ([res_rel], [while_loop_rel] in py/PyLite_while.v).
+
+    7. A [*_func] lemma about a module-level FUNCTION: the state of its raise
+       is the final value of its first parameter, [ExcS w (self_st arg1)]
+       (example: [dsfmt_get_func] in proofs/Src_stream_enc_proofs.v).  A callee
+       reached through [name(...)] (not [recv.name(...)]) has its state
+       replaced by the caller's environment anyway.
+
+    8. Equations for manual rewriting: [bind_ExcS], [attach_Ok], [attach_Exc],
+       [attach_ExcS], [attach_attach], [strip_Ok], [strip_Exc], [strip_ExcS],
+       [strip_attach], [strip_bind] ([strip] goes to the leaves of a [bind]:
+       [strip (bind r f) = bind (strip r) (fun a => strip (f a))], NOT
+       [bind (strip r) f]).  All of them also hold by [cbn [attach strip bind]]
+       on constructors.
+
+    Symbolic execution of PyLite programs inside Coq.
 
     Goal shape:  [<interpreter term> = <functional model term>], for ALL inputs.
 
@@ -7,7 +109,9 @@
       Proof. pystart. unfold <model function>. pyrun. Qed.
       #[local] Hint Resolve m_func : pyspec.      (* callers now rewrite with it *)
 
-    [pystart]  intros, exposes the call ([call_method], [construct], ...),
+    [pystart]  intros, exposes the call ([call_method], [construct], ... become
+               [strip (call_method_value ..)] etc.; the run happens under the
+               [strip], which computes away once the result is there),
                turns a fuel [k + n] into [S (S .. n)].
     [pystep1]  one step of the left-hand side (below).
     [pysteps]  [pystep1] as long as it applies, then shows the normalised goal
@@ -22,7 +126,7 @@
     STATEMENT AT A TIME: [exec_block], [call_func] and the loops never unfold by
     themselves ([simpl never]).  [pystep1] normalises ([pycbn]), looks at the
     head redex of the left-hand side (the innermost scrutinee under the
-    [bind]s and [match]es, [head_of]) and
+    [bind]s, [match]es, [attach]s and [strip]s, [head_of]) and
       - unfolds one [Scons] of a block                      ([exec_block_cons]);
       - at a call [call_func P (S n) f args kws], first looks the callee's
         specification up (hint database [pyspec]) and rewrites with it, else
@@ -67,13 +171,18 @@ Open Scope Z_scope.
 (** * One-level unfoldings (all by [reflexivity]) *)
 Lemma call_func_S P n f args kws :
   call_func P (S n) f args kws =
-  (do e <- bind_params (fun d => do r <- eval P (call_func P n) [] d; PyLite.Ok (fst r))
-                       (f_params f) args kws;
-   do o <- exec_block P (call_func P n) n e (f_body f);
-   match o with
-   | ONorm e' => PyLite.Ok (PNone, match f_params f with (x, _) :: _ => lookup x e' | [] => None end)
-   | ORet v e' => PyLite.Ok (v, match f_params f with (x, _) :: _ => lookup x e' | [] => None end)
-   | OBrk _ | OCont _ => Unsupported "break outside loop"
+  (do e <- strip (bind_params (fun d => do r <- eval P (call_func P n) [] d; PyLite.Ok (fst r))
+                              (f_params f) args kws);
+   match exec_block P (call_func P n) n e (f_body f) with
+   | PyLite.Ok (ONorm e') =>
+       PyLite.Ok (PNone, match f_params f with (x, _) :: _ => lookup x e' | [] => None end)
+   | PyLite.Ok (ORet v e') =>
+       PyLite.Ok (v, match f_params f with (x, _) :: _ => lookup x e' | [] => None end)
+   | PyLite.Ok (OBrk _) | PyLite.Ok (OCont _) => Unsupported "break outside loop"
+   | Exc c => Exc c
+   | ExcS c e' => ExcS c (self_state f e')
+   | Fuel => Fuel
+   | Unsupported w => Unsupported w
    end).
 Proof. reflexivity. Qed.
 
@@ -105,7 +214,7 @@ Definition for_loop (P : prog) (cf : func -> list pv -> list (string * pv) -> Py
   match l with
   | [] => PyLite.Ok (ONorm e)
   | y :: r =>
-      do e1 <- assign P cf e t y;
+      do e1 <- attach e (assign P cf e t y);
       do o <- exec_block P cf lf e1 b;
       match o with
       | ONorm e2 | OCont e2 => loop r e2
@@ -124,7 +233,7 @@ Proof. reflexivity. Qed.
 
 Lemma for_loop_cons P cf lf t b y r e :
   for_loop P cf lf t b (y :: r) e =
-  do e1 <- assign P cf e t y;
+  do e1 <- attach e (assign P cf e t y);
   do o <- exec_block P cf lf e1 b;
   loop_next o (for_loop P cf lf t b r).
 Proof. reflexivity. Qed.
@@ -169,7 +278,7 @@ Lemma eval_EComp P cf e k elt n it :
   eval P cf e (EComp k elt n it) =
   do (vi, e1) <- eval P cf e it;
   do l <- iter_list vi;
-  do vs <- comp_loop P cf e1 n elt l;
+  do vs <- attach e1 (comp_loop P cf e1 n elt l);
   PyLite.Ok (match k with KTuple => PTuple vs | KList => PList vs end, e1).
 Proof. reflexivity. Qed.
 
@@ -213,7 +322,8 @@ Definition out_of_iter (i : iter env) : out :=
 (** loops that may [break] / [return] *)
 Lemma for_loop_iter {A B} (env_of : A -> env) (g : B -> pv) (f : A -> B -> iter A) P cf lf t b :
   (forall a y,
-     (do e1 <- assign P cf (env_of a) t (g y); do o <- exec_block P cf lf e1 b; PyLite.Ok (iter_of_out o))
+     (do e1 <- attach (env_of a) (assign P cf (env_of a) t (g y));
+      do o <- exec_block P cf lf e1 b; PyLite.Ok (iter_of_out o))
      = PyLite.Ok (iter_map env_of (f a y))) ->
   forall l a,
     for_loop P cf lf t b (map g l) (env_of a) =
@@ -222,8 +332,8 @@ Proof.
   intros H l. induction l as [|y r IH]; intros a; cbn [map fold_iter].
   - apply for_loop_nil.
   - rewrite for_loop_cons. specialize (H a y).
-    destruct (assign P cf (env_of a) t (g y)) as [e1| | |]; cbn [bind] in *; try discriminate.
-    destruct (exec_block P cf lf e1 b) as [o| | |]; cbn [bind] in *; try discriminate.
+    destruct (assign P cf (env_of a) t (g y)) as [e1| | | |]; cbn [attach bind] in *; try discriminate.
+    destruct (exec_block P cf lf e1 b) as [o| | | |]; cbn [bind] in *; try discriminate.
     destruct (f a y) as [a'|a'|v a']; destruct o; cbn [iter_of_out iter_map loop_next out_of_iter] in *;
       try discriminate; inversion H; subst; try reflexivity; apply IH.
 Qed.
@@ -234,15 +344,16 @@ Definition iter_ok (o : out) : option env :=
 
 Lemma for_loop_fold {A B} (env_of : A -> env) (g : B -> pv) (f : A -> B -> A) P cf lf t b :
   (forall a y,
-     (do e1 <- assign P cf (env_of a) t (g y); do o <- exec_block P cf lf e1 b; PyLite.Ok (iter_ok o))
+     (do e1 <- attach (env_of a) (assign P cf (env_of a) t (g y));
+      do o <- exec_block P cf lf e1 b; PyLite.Ok (iter_ok o))
      = PyLite.Ok (Some (env_of (f a y)))) ->
   forall l a, for_loop P cf lf t b (map g l) (env_of a) = PyLite.Ok (ONorm (env_of (fold_left f l a))).
 Proof.
   intros H l. induction l as [|y r IH]; intros a; cbn [map fold_left].
   - apply for_loop_nil.
   - rewrite for_loop_cons. specialize (H a y).
-    destruct (assign P cf (env_of a) t (g y)) as [e1| | |]; cbn [bind] in *; try discriminate.
-    destruct (exec_block P cf lf e1 b) as [o| | |]; cbn [bind] in *; try discriminate.
+    destruct (assign P cf (env_of a) t (g y)) as [e1| | | |]; cbn [attach bind] in *; try discriminate.
+    destruct (exec_block P cf lf e1 b) as [o| | | |]; cbn [bind] in *; try discriminate.
     destruct o; cbn [iter_ok loop_next] in *; inversion H; subst; apply IH.
 Qed.
 
@@ -253,7 +364,7 @@ Lemma comp_loop_map {B} (g : B -> pv) (h : B -> pv) P cf e1 n elt :
 Proof.
   intros H l. induction l as [|y r IH]; cbn [map]; [reflexivity|].
   rewrite comp_loop_cons, IH. specialize (H y).
-  destruct (eval P cf ((n, g y) :: e1) elt) as [[v e']| | |]; cbn [bind] in *; try discriminate.
+  destruct (eval P cf ((n, g y) :: e1) elt) as [[v e']| | | |]; cbn [bind] in *; try discriminate.
   inversion H. reflexivity.
 Qed.
 
@@ -265,6 +376,8 @@ Qed.
 Lemma bind_Ok {A B} (a : A) (f : A -> PyLite.res B) : bind (PyLite.Ok a) f = f a.
 Proof. reflexivity. Qed.
 Lemma bind_Exc {A B} c (f : A -> PyLite.res B) : bind (Exc c) f = Exc c.
+Proof. reflexivity. Qed.
+Lemma bind_ExcS {A B} c st (f : A -> PyLite.res B) : bind (ExcS c st) f = ExcS c st.
 Proof. reflexivity. Qed.
 Lemma bind_Fuel {A B} (f : A -> PyLite.res B) : bind Fuel f = Fuel.
 Proof. reflexivity. Qed.
@@ -279,6 +392,57 @@ Proof. destruct r; reflexivity. Qed.
 Lemma bind_if {A B} (c : bool) (x y : PyLite.res A) (f : A -> PyLite.res B) :
   bind (if c then x else y) f = if c then bind x f else bind y f.
 Proof. destruct c; reflexivity. Qed.
+
+(** ** Exceptions that carry state: [attach] (a raise gets the environment it
+    happens in) and [strip] (the entry points forget it) *)
+Lemma attach_Ok {A} e (a : A) : attach e (PyLite.Ok a) = PyLite.Ok a.
+Proof. reflexivity. Qed.
+Lemma attach_Exc {A} e c : @attach A e (Exc c) = ExcS c e.
+Proof. reflexivity. Qed.
+Lemma attach_ExcS {A} e c st : @attach A e (ExcS c st) = ExcS c e.
+Proof. reflexivity. Qed.
+Lemma attach_Fuel {A} e : @attach A e Fuel = Fuel.
+Proof. reflexivity. Qed.
+Lemma attach_Unsupported {A} e w : @attach A e (Unsupported w) = Unsupported w.
+Proof. reflexivity. Qed.
+Lemma attach_attach {A} e e' (r : PyLite.res A) : attach e (attach e' r) = attach e r.
+Proof. destruct r; reflexivity. Qed.
+Lemma attach_if {A} e (c : bool) (x y : PyLite.res A) :
+  attach e (if c then x else y) = if c then attach e x else attach e y.
+Proof. destruct c; reflexivity. Qed.
+
+Lemma strip_Ok {A} (a : A) : strip (PyLite.Ok a) = PyLite.Ok a.
+Proof. reflexivity. Qed.
+Lemma strip_Exc {A} c : @strip A (Exc c) = Exc c.
+Proof. reflexivity. Qed.
+Lemma strip_ExcS {A} c st : @strip A (ExcS c st) = Exc c.
+Proof. reflexivity. Qed.
+Lemma strip_Fuel {A} : @strip A Fuel = Fuel.
+Proof. reflexivity. Qed.
+Lemma strip_Unsupported {A} w : @strip A (Unsupported w) = Unsupported w.
+Proof. reflexivity. Qed.
+Lemma strip_strip {A} (r : PyLite.res A) : strip (strip r) = strip r.
+Proof. destruct r; reflexivity. Qed.
+Lemma strip_attach {A} e (r : PyLite.res A) : strip (attach e r) = strip r.
+Proof. destruct r; reflexivity. Qed.
+Lemma strip_if {A} (c : bool) (x y : PyLite.res A) :
+  strip (if c then x else y) = if c then strip x else strip y.
+Proof. destruct c; reflexivity. Qed.
+(** [strip] goes to the leaves of a [bind] (NOT [bind (strip r) f]: the
+    continuation may raise with a state, too) *)
+Lemma strip_bind {A B} (r : PyLite.res A) (f : A -> PyLite.res B) :
+  strip (bind r f) = bind (strip r) (fun a => strip (f a)).
+Proof. destruct r; reflexivity. Qed.
+(** a result without state is not changed: what the [*_spec] theorems, which
+    are about the entry points, say on their right-hand sides *)
+Lemma strip_id {A} (r : PyLite.res A) : (forall c st, r <> ExcS c st) -> strip r = r.
+Proof. destruct r; intros H; try reflexivity. exfalso. eapply H. reflexivity. Qed.
+
+(** the state of a raise as [call_func] reports it to the caller: the receiver
+    at the point of the raise.  [attach (self_st self) r] turns the stateless
+    embedding [r] of a model result (exceptions as [Exc w]) into the form a
+    [*_func] lemma needs (exceptions as [ExcS w [("$self", self)]]). *)
+Notation self_st s := (@cons (string * pv) (@pair string pv "$self"%string s) (@nil (string * pv))).
 
 Lemma lookup_update_same {A} x (v : A) l : lookup x (update x v l) = Some v.
 Proof.
@@ -335,8 +499,13 @@ Proof. intros H0 H1 H2 H3. cbn [call_value]. rewrite H0, H1, H2, H3. reflexivity
 Lemma call_method_value_obj P cf c fs m f args kws :
   lookup m fs = None -> find_method P mro_depth c m = Some f ->
   call_method_value P cf (PObj c fs) m args kws =
-  do x <- cf f (PObj c fs :: args) kws;
-  PyLite.Ok (fst x, match snd x with Some s => s | None => PObj c fs end).
+  match cf f (PObj c fs :: args) kws with
+  | PyLite.Ok x => PyLite.Ok (fst x, match snd x with Some s => s | None => PObj c fs end)
+  | Exc c => Exc c
+  | ExcS c st => ExcS c st
+  | Fuel => Fuel
+  | Unsupported w => Unsupported w
+  end.
 Proof. intros H1 H2. cbn [call_method_value]. rewrite H1, H2. reflexivity. Qed.
 
 (** [enum_by_value] against the model's usual "is a known value" test *)
@@ -489,6 +658,8 @@ Ltac head_of t :=
   | orb ?x _ => head_of x
   | Bool.eqb ?x _ => head_of x
   | opt_res ?x _ => head_of x
+  | attach _ ?r => head_of r
+  | strip ?r => head_of r
   | _ => t
   end.
 
@@ -496,6 +667,7 @@ Ltac is_result t :=
   lazymatch t with
   | PyLite.Ok _ => idtac
   | PyLite.Exc _ => idtac
+  | PyLite.ExcS _ _ => idtac
   | PyLite.Fuel => idtac
   | PyLite.Unsupported _ => idtac
   | _ => fail "not a result"
@@ -669,7 +841,9 @@ Ltac pystep := pystep1; pynorm_head.
 Ltac pysteps := repeat pystep1; pynorm_head.
 
 (** run to the end, in every branch; what it cannot close is left to the user *)
-Ltac pyrun := repeat pystep1; pyfinish.
+(** every run is bounded: after a change of the source a proof must FAIL, not search for ever *)
+Ltac pyrun_unbounded := repeat pystep1; pyfinish.
+Ltac pyrun := timeout 300 pyrun_unbounded.
 
 (** entry: expose the call *)
 Ltac pystart := intros; unfold call_method, construct, call_function; cbn [Nat.add].
@@ -719,4 +893,70 @@ Module Demo.
     2:{ intros [a [v|]] y; unfold st_env, st_step, stepf; cbn [fst snd app]; pyrun. }
     unfold st_env, model. rewrite fst_fold_st_step. pyrun.
   Qed.
+
+  (** ** Exceptions carry state: what a method did to [self] before it raised
+      is there for the caller's [except]
+
+      class K:
+          def bump(self, by):
+              self.n = self.n + by          # changes self ...
+              if self.n > 9:
+                  raise ValueError          # ... then raises
+              return self.n
+          def safe(self, by):
+              try:
+                  self.bump(by)
+              except ValueError:
+                  self.errs = self.errs + 1
+              return self.n                 # sees the change made by bump
+
+      At the [call_func] level (the lemma the callers rewrite with) the raise
+      carries the receiver at that point, [ExcS c [("$self", receiver)]]; at
+      the entry points ([call_method]) it is the plain [Exc c]. *)
+  Definition K_bump : func := mkFunc "bump" [("self", None); ("by", None)] false
+    (Scons (SAssign (TAttr (EName "self") "n") (EBin OAdd (EAttr (EName "self") "n") (EName "by")))
+    (Scons (SIf (ECmp (EAttr (EName "self") "n") (Ccons CGt (EConst (PInt 9)) Cnil))
+              (Scons (SRaise (EName "ValueError")) Snil) Snil)
+    (Scons (SReturn (OSome (EAttr (EName "self") "n"))) Snil))).
+  Definition K_safe : func := mkFunc "safe" [("self", None); ("by", None)] false
+    (Scons (STry (Scons (SExpr (ECall (EAttr (EName "self") "bump") (Econs (EName "by") Enil) Knil)) Snil)
+                 (Hcons "ValueError"
+                    (Scons (SAssign (TAttr (EName "self") "errs")
+                                    (EBin OAdd (EAttr (EName "self") "errs") (EConst (PInt 1)))) Snil)
+                  Hnil))
+    (Scons (SReturn (OSome (EAttr (EName "self") "n"))) Snil)).
+  Definition PK : prog := mkProg [mkClass "K" [] None None [] [K_bump; K_safe]] [] [] [].
+  Definition kobj (n errs : Z) : pv := PObj "K" [("n", PInt n); ("errs", PInt errs)].
+
+  Lemma bump_func n k e by_ :
+    call_func PK (S n) K_bump [kobj k e; PInt by_] [] =
+    if 9 <? k + by_ then ExcS "ValueError" (self_st (kobj (k + by_) e))
+    else PyLite.Ok (PInt (k + by_), Some (kobj (k + by_) e)).
+  Proof. pystart. pyrun. Qed.
+
+  (** the caller's handler, and the code after it, see the mutation
+      (no lemma about [bump] registered yet: [pyrun] steps into it) *)
+  Lemma safe_spec_inline n k e by_ :
+    call_method PK (2 + n) (kobj k e) "safe" [PInt by_] =
+    PyLite.Ok (PInt (k + by_), kobj (k + by_) (if 9 <? k + by_ then e + 1 else e)).
+  Proof. pystart. pyrun. Qed.
+
+  (** the same with the callee's lemma: the caller rewrites with [bump_func],
+      whose [ExcS] tells it the receiver to write back *)
+  #[local] Hint Resolve bump_func : pyspec.
+  Lemma safe_spec n k e by_ :
+    call_method PK (2 + n) (kobj k e) "safe" [PInt by_] =
+    PyLite.Ok (PInt (k + by_), kobj (k + by_) (if 9 <? k + by_ then e + 1 else e)).
+  Proof. pystart. pyrun. Qed.
+
+  (** the entry point forgets the state: a [*_spec] statement is what it was
+      for the interpreter without state in exceptions *)
+  Lemma bump_spec n k e by_ :
+    call_method PK (1 + n) (kobj k e) "bump" [PInt by_] =
+    if 9 <? k + by_ then Exc "ValueError" else PyLite.Ok (PInt (k + by_), kobj (k + by_) e).
+  Proof. pystart. pyrun. Qed.
+
+  Example safe_computes :
+    call_method PK 5 (kobj 7 0) "safe" [PInt 5] = PyLite.Ok (PInt 12, kobj 12 1).
+  Proof. vm_compute. reflexivity. Qed.
 End Demo.
